@@ -223,6 +223,9 @@ def snapQuery (sig : Sig) (s : Snap) (q : String) : String :=
         | y :: t => if x == y then y :: t else if strLt x y then x :: y :: t else y :: ins t
       ins acc) []
     s!"{sorted.length}:" ++ "/".intercalate sorted
+  | ["lookrec", t] =>
+    -- `lookup_rec_expr`: bottom-up lookup of a whole term (a pattern without variables)
+    showLookup (MPat.lookupPat s [] (parseMPat t))
   | ["count", i] => (match s.cls (nat! i) with | some c => toString (Grp.count (Snap.group c)) | none => "none")
   | _ => "bad-query"
 
